@@ -169,9 +169,10 @@ def history_case(ctx, rep, rng, idx):
             lay = c06.gen_layout(rng, members, feature)
             lay["header"] = "raw" if header_mode == "raw" else lay.get("header", "raw")
             feats = c06.classify(members, lay)
-            if any(f in c06.PRIORITY for f in feats):
-                rep.dist("skipped_base", "layout py7zr misreads (C06 finding): " + feats[0])
-                return
+            if any(f in ("dir_without_dir_attribute", "emptyfile_with_dir_attribute") for f in feats):
+                # not skipped any more (the C06 finding was repaired): the EmptyFile vector and the odd attribute words
+                # must come back unchanged from every session
+                rep.dist("base_feature", "dir/empty-file attributes at odds with EmptyFile")
             if any(m["mtime"] is None or m["attr"] is None for m in members):
                 feats = sorted(set(feats + ["partial_vectors"]))
             if lay.get("crc") in ("folder", "folder-partial"):
